@@ -33,9 +33,13 @@ OTHER = ["MinGenSet", "MinSetCover", "NumPathsOptimization"]
 EXT_KEY = "external_safe_paths"
 EXT_FINDING = "AbstractPathModelDAG:extends-caller-list:external_safe_paths"
 CLASS_OPTIONS = ["use_subgraph_scanning_lowerbound", "use_min_gen_set_lowerbound", "optimize_with_guessed_weights",
-                 "optimize_with_safe_sequences_fix_via_bounds"]      # valid non-default options of MinFlowDecomp(Cycles) / the walk models
+                 "optimize_with_safe_sequences_fix_via_bounds",
+                 "use_min_gen_set_lowerbound_partition_constraints"]      # valid non-default options of MinFlowDecomp(Cycles) / the walk models
+CLASS_OPTIONS_OFF = ["use_subgraph_scanning_weights_in_given_weights_optimization"]      # default True: drawn as False
+LB_OPTIONS = ["use_min_gen_set_lowerbound", "use_min_gen_set_lowerbound_partition_constraints", "use_subgraph_scanning_lowerbound"]
 KEYCODE = {"given_weights": 106, "use_subgraph_scanning_lowerbound": 102, "use_min_gen_set_lowerbound": 103, "optimize_with_guessed_weights": 104,
-           "optimize_with_safe_sequences_fix_via_bounds": 105, "external_safe_paths": 101, "trusted_edges_for_safety": 0, "allow_empty_paths": 1, "optimize_with_safe_paths": 2, "optimize_with_safe_sequences": 3,
+           "optimize_with_safe_sequences_fix_via_bounds": 105, "use_min_gen_set_lowerbound_partition_constraints": 107,
+           "use_subgraph_scanning_weights_in_given_weights_optimization": 108, "external_safe_paths": 101, "trusted_edges_for_safety": 0, "allow_empty_paths": 1, "optimize_with_safe_paths": 2, "optimize_with_safe_sequences": 3,
            "optimize_with_safe_zero_edges": 4, "optimize_with_subpath_constraints_as_safe_sequences": 5,
            "optimize_with_safety_as_subpath_constraints": 6, "verif_user_key": 100}
 ALIASING = {"kLeastAbsErrors", "kMinPathError", "kFlowDecompCycles", "kLeastAbsErrorsCycles", "kMinPathErrorCycles", "MinFlowDecompCycles"}
@@ -99,7 +103,8 @@ def graph_snapshot(G):
 # ------------------------------------------------------------------------------------------ the caller's objects
 class Shared:
     """the caller's objects of one history"""
-    def __init__(self, rng):
+    def __init__(self, rng, lb_focus=False):
+        self.lb_focus = lb_focus; self.extra = []
         sd = ci.gen_valid(rng, "kFlowDecomp"); sd["origin"] = "edge"; sd["node_w"] = {}
         sc = ci.gen_valid(rng, "kFlowDecompCycles"); sc["origin"] = "edge"; sc["node_w"] = {}
         self.G = {"dag": ci.build_graph(sd), "cyc": ci.build_graph(sc)}
@@ -108,16 +113,37 @@ class Shared:
         for u, v in zip(names, names[1:]):
             P.add_edge(u, v, flow=w)
         self.G["dag2"] = P
-        self.cons = {}; self.ign = {}; self.scal = {}; self.starts = {}; self.ends = {}
+        self.cons = {}; self.ign = {}; self.scal = {}; self.starts = {}; self.ends = {}; self.flowless = {}
         for kind in KINDS:
             G = self.G[kind]
             for v in G.nodes():                     # node weights under the same attribute name: node mode shares the graph object
                 G.nodes[v]["flow"] = max(sum(d.get("flow", 0) for _, _, d in G.in_edges(v, data=True)),
                                          sum(d.get("flow", 0) for _, _, d in G.out_edges(v, data=True)))
             es = list(G.edges()); ns = list(G.nodes())
+            # edges WITHOUT a flow value that leave a source / enter a sink (the caller does not know their flow and lists them in
+            # elements_to_ignore): every class accepts them; a model must not fill in the missing attribute
+            self.flowless[kind] = []
+            if kind != "dag2" and (lb_focus or rng.random() < 0.4):
+                srcs = [v for v in ns if G.in_degree(v) == 0]; snks = [v for v in ns if G.out_degree(v) == 0]
+                cand = []
+                for a in srcs:
+                    cand += [(a, b) for b in ns if b not in srcs and not G.has_edge(a, b)] + [(a, "zz_nf_%s" % kind)]
+                cand2 = []
+                for b in snks:
+                    cand2 += [(a, b) for a in ns if a not in snks and not G.has_edge(a, b)] + [("zz_nfs_%s" % kind, b)]
+                picks = ([rng.choice(cand)] if cand and (lb_focus or rng.random() < 0.7) else []) + ([rng.choice(cand2)] if cand2 and rng.random() < 0.5 else [])
+                for (a, b) in picks:
+                    if not G.has_edge(a, b) and a != b:
+                        G.add_edge(a, b)
+                        if kind == "dag" and not nx.is_directed_acyclic_graph(G):
+                            G.remove_edge(a, b); continue
+                        self.flowless[kind].append((a, b))
+                for v in G.nodes():
+                    G.nodes[v].setdefault("flow", 0)
             self.cons[kind] = {"edge": ([[es[rng.randrange(len(es))]]] if rng.random() < 0.6 else []),
                                "node": ([[ns[rng.randrange(len(ns))]]] if rng.random() < 0.6 else [])}
-            self.ign[kind] = {"edge": ([es[0]] if rng.random() < 0.3 else []), "node": ([ns[0]] if rng.random() < 0.3 else [])}
+            self.ign[kind] = {"edge": list(self.flowless[kind]) + ([es[0]] if rng.random() < (0.0 if (lb_focus and self.flowless[kind]) else 0.3) else []),
+                              "node": ([ns[0]] if rng.random() < 0.3 else [])}
             # at most one element gets factor 0, a different one than the ignored element, and only if something stays live
             # (all elements ignored is the OverflowError region of DESIGN #24)
             ze = es[1] if len(es) >= 3 else None; zn = ns[1] if len(ns) >= 3 else None
@@ -128,7 +154,7 @@ class Shared:
         self.sup = {}
         rw = {"dag": list(sd.get("route_weights", [1])), "cyc": list(sc.get("route_weights", [1])), "dag2": [w]}
         for kind in KINDS:
-            vals = rw[kind] + [rng.choice(rw[kind])] + [d["flow"] for _, _, d in list(self.G[kind].edges(data=True))[:2]] + [1]
+            vals = rw[kind] + [rng.choice(rw[kind])] + [d["flow"] for _, _, d in list(self.G[kind].edges(data=True))[:2] if "flow" in d] + [1]
             rng.shuffle(vals)
             if vals == sorted(vals) or vals == sorted(vals, reverse=True):
                 vals = vals[1:] + vals[:1] if len(set(vals)) > 1 else vals
@@ -148,6 +174,17 @@ class Shared:
         for name in CLASS_OPTIONS:
             if rng.random() < 0.3:
                 self.opts[name] = True
+        for name in CLASS_OPTIONS_OFF:
+            if rng.random() < 0.2:
+                self.opts[name] = False
+        if lb_focus:                       # the non-default lower-bound options of MinFlowDecomp(Cycles)
+            on = [n for n in LB_OPTIONS if rng.random() < 0.6] or [rng.choice(LB_OPTIONS)]
+            if rng.random() < 0.7 and "use_min_gen_set_lowerbound" not in on:
+                on.append("use_min_gen_set_lowerbound")
+            for n in LB_OPTIONS:
+                self.opts.pop(n, None)
+            for n in on:
+                self.opts[n] = True
         self.sopts = dict(ci.SOLVER_OPTIONS)
         self.k = {"dag": max(1, sd["k"] or 1), "cyc": max(1, sc["k"] or 1), "dag2": 1}
         nums = sorted({rng.randint(1, 9) for _ in range(4)})
@@ -162,6 +199,7 @@ class Shared:
         s = {"G": {k: graph_snapshot(g) for k, g in self.G.items()}}
         for a in Shared.ARGS:
             s[a] = getattr(self, a)
+        s["extra"] = [r.snapshot() for r in self.extra]
         s = copy.deepcopy(s)
         if with_globals:
             s["globals"] = global_snapshot()
@@ -170,7 +208,7 @@ class Shared:
     @staticmethod
     def fresh_from(sh, init):
         f = Shared.__new__(Shared)
-        f.k = dict(sh.k); f.total = sh.total
+        f.k = dict(sh.k); f.total = sh.total; f.flowless = copy.deepcopy(sh.flowless); f.extra = []; f.lb_focus = sh.lb_focus
         f.G = {}
         for kind in KINDS:
             H = nx.DiGraph(); nodes, edges, gattr = init["G"][kind]
@@ -178,6 +216,100 @@ class Shared:
         for a in Shared.ARGS:
             setattr(f, a, copy.deepcopy(init[a]))
         return f
+
+
+# ------------------------------------------------------------------------------------------ refused constructions
+class Refusal:
+    """caller objects of a construction that the class must refuse (one documented ValueError reason of C19 applied to a valid
+    input): graph, constraint list, ignore list, starts / ends, given weights.  They join the history's shared objects."""
+    def __init__(self, cls, viol, spec):
+        self.cls = cls; self.viol = viol; self.spec = spec
+        self.G = ci.build_graph(spec)
+        self.cons = copy.deepcopy(spec["cons"]); self.ign = list(spec["ign"])
+        self.starts = list(spec["starts"]); self.ends = list(spec["ends"])
+        self.sup = list(spec["superset"]) if spec.get("superset") is not None else None
+
+    def snapshot(self):
+        return {"G": graph_snapshot(self.G), "cons": self.cons, "ign": self.ign, "starts": self.starts, "ends": self.ends, "sup": self.sup}
+
+    def kwargs(self, sh, pass_opts):
+        spec = self.spec; cls = self.cls
+        kw = {"G": self.G, "solver_options": sh.sopts}
+        if cls in ci.IS_COVER:
+            kw["cover_type"] = spec["origin"]
+        else:
+            kw["flow_attr"] = "flow"; kw["flow_attr_origin"] = spec["origin"]; kw["weight_type"] = ci._wtype(spec)
+        if cls in ci.HAS_K:
+            kw["k"] = spec["k"]
+        if cls in ci.HAS_SUPERSET and self.sup is not None:
+            kw["solution_weights_superset"] = self.sup
+        if pass_opts and cls != "MinErrorFlow":
+            kw["optimization_options"] = sh.opts
+        if cls in ci.HAS_CONS:
+            if cls in ci.IS_CYC:
+                kw["subset_constraints"] = self.cons; kw["subset_constraints_coverage"] = spec["cov"]
+            else:
+                kw["subpath_constraints"] = self.cons; kw["subpath_constraints_coverage"] = spec["cov"]
+                if spec.get("cov_len") is not None:
+                    kw["subpath_constraints_coverage_length"] = spec["cov_len"]
+                if spec.get("len_attr"):
+                    kw["length_attr"] = "len"
+        kw["elements_to_ignore"] = self.ign
+        if spec.get("ign_pct") is not None:
+            kw["elements_to_ignore_percentile"] = spec["ign_pct"]
+        if spec.get("trust_pct") is not None:
+            kw["trusted_edges_for_safety_percentile"] = spec["trust_pct"]
+        if cls != "kFlowDecomp":
+            kw["additional_starts"] = self.starts; kw["additional_ends"] = self.ends
+        return kw
+
+
+def gen_refusal(rng, cls=None, node=None, viol=None):
+    """a valid input of `cls` in the wanted mode with one violation kind of C19 applied; None if not applicable"""
+    cls = cls or rng.choice(GRAPH_MODELS)
+    node = (rng.random() < 0.5) if node is None else node
+    spec = None
+    for _ in range(40):
+        try:
+            s_ = ci.gen_valid(rng, cls)
+        except RuntimeError:
+            continue
+        spec = s_
+        if (s_["origin"] == "node") == node:
+            break
+    if spec is None or (spec["origin"] == "node") != node:
+        return None
+    vs = [viol] if viol else list(ci.violations_for(cls))
+    if not viol:
+        rng.shuffle(vs)
+    for v in vs:
+        s2 = copy.deepcopy(spec)
+        try:
+            ok = ci.VIOL[v](s2, rng)
+        except Exception:
+            ok = False
+        if ok:
+            return Refusal(cls, v, s2)
+    return None
+
+
+def run_refused(r, sh, pass_opts):
+    """construct (and solve, if the constructor did not refuse) with the caller's own objects -> exception text or None"""
+    import flowpaths as fp
+    try:
+        if r.cls == "stDAG":
+            fp.stDAG(r.G, additional_starts=r.starts, additional_ends=r.ends); return None
+        if r.cls == "stDiGraph":
+            fp.stDiGraph(r.G, additional_starts=r.starts, additional_ends=r.ends); return None
+        if r.cls == "NodeExpandedDiGraph":
+            fp.NodeExpandedDiGraph(r.G, node_flow_attr="flow", try_filling_in_missing_flow_attr=bool(r.starts or r.ends),
+                                   additional_starts=r.starts, additional_ends=r.ends); return None
+        m = getattr(fp, r.cls)(**r.kwargs(sh, pass_opts))
+        m.solve()
+        m.is_solved()
+        return None
+    except Exception as e:
+        return ci.exc_kind(e) + ": " + str(e)[:100]
 
 
 def make_op(rng):
@@ -225,7 +357,7 @@ def kwargs_for(op, sh):
         kw["solver_options"] = sh.sopts
     if op["pass_cons"] and gcls in ci.HAS_CONS:
         kw["subset_constraints" if gcls in ci.CYC_CLASSES else "subpath_constraints"] = sh.cons[kind][mode]
-    if op["pass_ign"]:
+    if op["pass_ign"] or (mode == "edge" and sh.flowless.get(kind)):
         kw["elements_to_ignore"] = sh.ign[kind][mode]
     if op["pass_scal"] and gcls in HAS_SCALING:
         kw["error_scaling"] = sh.scal[kind][mode]
@@ -315,7 +447,9 @@ def run_op(op, kw):
 
 
 def diff_snap(a, b):
-    out = [k for k in a if k not in ("G", "globals") and a[k] != b[k]]
+    out = [k for k in a if k not in ("G", "globals", "extra") and a[k] != b[k]]
+    for j, (x, y) in enumerate(zip(a.get("extra", []), b.get("extra", []))):
+        out += ["refused-construction objects #%d: %s" % (j, k) for k in x if x[k] != y[k]]
     out += ["G." + k for k in a["G"] if a["G"][k] != b["G"][k]]
     out += ["default/global " + k for k in a["globals"] if a["globals"][k] != b["globals"].get(k)]
     return out
@@ -332,22 +466,75 @@ def model_cls_id(op):
     return ci.CLS_ID[cls], op.get("pass_opts_eff", False)
 
 
+class _Mini:
+    """the option dicts a caller shares with the refused constructions of the enumerated stream"""
+    def __init__(self, rng):
+        self.opts = {"verif_user_key": 1}
+        for n in CLASS_OPTIONS:
+            if rng.random() < 0.3:
+                self.opts[n] = True
+        self.sopts = dict(ci.SOLVER_OPTIONS)
+
+
+def refused_stream(ctx):
+    """every class x {edge, node mode} x every documented refusal reason: the construction (twice, with the same caller objects)
+    must leave graph (attribute PRESENCE included), lists, dicts, default objects and module state as they were"""
+    reps = ctx.budget(1, 5)
+    for cls in ci.GRAPH_CLASSES + GRAPH_MODELS:
+        for node in (False, True):
+            for v in ci.violations_for(cls):
+                for rep_ in range(reps):
+                    rng = ctx.rng("refused:%s:%s:%s" % (cls, node, v), rep_)
+                    r = gen_refusal(rng, cls, node, v)
+                    if r is None:
+                        continue
+                    mini = _Mini(rng); po = rng.random() < 0.6
+                    snap = lambda: copy.deepcopy({"objects": r.snapshot(), "optimization_options": mini.opts, "solver_options": mini.sopts, "globals": global_snapshot()})
+                    s0 = snap(); excs = []; diffs = []
+                    for attempt in range(2):
+                        excs.append(run_refused(r, mini, po))
+                        s1 = snap()
+                        d = [k for k in ("optimization_options", "solver_options") if s0[k] != s1[k]] + \
+                            [k for k in s0["objects"] if s0["objects"][k] != s1["objects"][k]] + \
+                            ["default/global " + k for k in s0["globals"] if s0["globals"][k] != s1["globals"].get(k)]
+                        diffs.append(d)
+                    ctx.case([cls, node, v, repr(r.spec)], nontrivial=True,
+                             sample={"class": cls, "mode": "node" if node else "edge", "violation": v, "raised": excs[0]})
+                    ctx.count("refused_constructions", "enumerated cases")
+                    ctx.count("refused_constructions", "raised " + excs[0].split(":")[0] if excs[0] else "not refused (accepted)")
+                    if any(diffs):
+                        what = sorted(set(diffs[0] + diffs[1]))
+                        after = r.snapshot()
+                        ctx.report("a refused construction of %s (%s mode, %s; it raised %s) left the caller's data changed: %s"
+                                   % (cls, "node" if node else "edge", v, excs[0], what[:6]),
+                                   {"kind": "refused", "class": cls, "mode": "node" if node else "edge", "violation": v, "input": repr(r.spec),
+                                    "raised": excs, "changed": what, "graph_before": canon(s0["objects"]["G"]), "graph_after": canon(after["G"])}, concrete=True)
+
+
 def run(ctx):
-    ctx.rule = ("case = one history: 3-7 constructions/solves of random classes (13 graph model classes in edge or node mode, MinGenSet, "
+    refused_stream(ctx)
+    ctx.rule = ("case = one refused construction of the enumerated stream (class x mode x documented refusal reason, attempted twice on the caller's objects) or "
+                "one history: 3-7 constructions/solves of random classes (13 graph model classes in edge or node mode, MinGenSet, "
                 "MinSetCover, NumPathsOptimization) sharing one DAG, one cyclic graph, one optimization_options dict (empty or with a user key), "
                 "solver_options, constraint lists, ignore lists, error_scaling dicts (with factor 0), additional starts/ends, number / subset "
-                "lists; each argument is passed or omitted (shared defaults); non-trivial = at least two classes; distinct by the operation list")
+                "lists; each argument is passed or omitted (shared defaults); 0-2 refused constructions inserted as steps; 30% of the histories use the non-default "
+                "lower-bound options of MinFlowDecomp(Cycles) on graphs with flow-less ignored edges at sources/sinks; non-trivial = at least two classes; "
+                "distinct by the operation list")
     n_hist = ctx.budget(150, 3000)
     reqs = []; hists = []; hist_sh = {}
     # switch of the faithful model: the list-aliasing finding is open (summary of the code that keeps the caller's list) or fixed
     ext_open = ctx.open_finding(EXT_FINDING) is not None
     for i in range(n_hist):
         rng = ctx.rng("history", i)
+        lb_focus = rng.random() < 0.3
         try:
-            sh = Shared(rng)
+            sh = Shared(rng, lb_focus)
         except RuntimeError:
             continue
         ops = [make_op(rng) for _ in range(rng.randint(3, 7))]
+        if lb_focus:      # MinFlowDecomp(Cycles) in edge mode with the non-default lower-bound options and the flow-less ignored edges
+            for j, c in zip(rng.sample(range(len(ops)), 2), (["MinFlowDecomp", rng.choice(["MinFlowDecomp", "MinFlowDecompCycles"])])):
+                ops[j].update({"cls": c, "node": False, "pass_opts": True, "pass_ign": True, "solve": True, "narrow": False, "sup": False})
         ops[-1]["solve"] = True                  # the model whose result is compared with a fresh-argument run is solved
         if rng.random() < 0.5:                   # ... often right after a model that was only constructed / asked for its lower bound
             ops[-2]["solve"] = False; ops[-2]["pass_opts"] = True
@@ -360,11 +547,35 @@ def run(ctx):
         for o in ops:
             if o["cls"] == "MinSetCover":
                 o["solve"] = True                # its is_solved() raises before solve() by design
+        # refused constructions as history steps (never the last one): each brings its own caller objects, which are part of
+        # every snapshot of the history from the start; sometimes the same objects are handed to a second refused construction
+        refs = []
+        for _ in range(rng.choice([0, 1, 1, 2])):
+            r = refs[0] if (refs and rng.random() < 0.4) else gen_refusal(rng)
+            if r is not None:
+                refs.append(r)
+        for r in refs:
+            if not any(r is x for x in sh.extra):
+                sh.extra.append(r)
+            po = rng.random() < 0.5
+            rop = {"cls": r.cls, "refused": r.viol, "ridx": [k_ for k_, x in enumerate(sh.extra) if x is r][0], "node": r.spec["origin"] == "node",
+                   "pass_opts": po, "pass_opts_eff": po and r.cls != "MinErrorFlow", "pass_sopts": True, "pass_cons": bool(r.cons), "pass_ign": True,
+                   "pass_scal": False, "pass_starts": bool(r.starts or r.ends), "sup": r.sup is not None, "solve": True, "lb_only": False,
+                   "narrow": False, "inner": "kMinPathError", "input": repr(r.spec)[:700]}
+            ops.insert(rng.randrange(len(ops)), rop)
         init = sh.snapshot()
         steps = []
         before = init
         earlier = []                             # (step, class, model object, what its getters said at its step, is_twin)
         for op in ops:
+            if op.get("refused"):
+                r = sh.extra[op["ridx"]]
+                exc = run_refused(r, sh, op["pass_opts"])
+                after = sh.snapshot()
+                steps.append({"op": op, "changed": diff_snap(before, after), "opts_keys": list(sh.opts.keys()), "result": None, "ext_grew": False, "only_ext": False,
+                              "getter_ok": True, "exc": exc, "has_cons": bool(r.cons) and r.cls in ci.HAS_CONS})
+                before = after
+                continue
             kw = kwargs_for(op, sh)
             LAST_MODEL[0] = None
             res, getter_ok, exc = run_op(op, kw)
@@ -399,7 +610,7 @@ def run(ctx):
         mops = []
         for s in steps:
             cid, passes = model_cls_id(s["op"])
-            mops.append([cid, passes, s["op"]["sup"], s["has_cons"], s["op"]["solve"]])
+            mops.append([cid, passes, s["op"]["sup"], s["has_cons"], s["op"]["solve"], bool(s["op"].get("refused") and s["exc"])])
         reqs.append("effects " + common.toks(ext_open, EXT_KEY in init["opts"], len(init_keys), init_keys, len(ops), mops))
         hists.append((i, ops, init, steps, res_fresh, exc_fresh, late)); hist_sh[i] = sh
     outs = ctx.model.run(reqs)
@@ -420,7 +631,14 @@ def run(ctx):
                 if s["op"][a]: ctx.dist("arg:" + a)
             if s["changed"] and sorted(set(str(c) for c in s["changed"])) == ["opts"] and s["only_ext"]:
                 polluted_ext = True         # also within this very step: NumPathsOptimization builds several models from the same kwargs
-            if s["exc"]:
+            refused = s["op"].get("refused")
+            if refused:
+                ctx.count("refused_constructions", "history_steps")
+                ctx.count("refused_constructions", "raised " + s["exc"].split(":")[0] if s["exc"] else "not refused (accepted)")
+                ctx.dist("refused:" + refused)
+                if s["exc"] and not s["exc"].startswith("ValueError"):
+                    ctx.notes.append({"refused_step_raised_other_than_ValueError (C19's subject, not judged here)": [cls, refused, s["exc"], s["op"].get("input", "")[:300]]})
+            if s["exc"] and not refused:
                 ctx.count("E4_histories", "steps_raising")
                 # after an earlier step extended the shared external_safe_paths list (foreign source_/sink_ edges), a later model may fail
                 ctx.report("a step of a history of valid constructions raised: %s (%s)" % (s["exc"], cls), dict(replay, step=j),
@@ -433,7 +651,11 @@ def run(ctx):
                 else:
                     polluted = True
                     key = (cls + ":mutates:optimization_options") if (what == ["opts"] and cls in ALIASING) else None
-                ctx.report("%s changed data it does not own: %s" % (cls, what[:6]), dict(replay, step=j), key=key, concrete=True)
+                if refused:
+                    ctx.report("a refused construction of %s (%s mode, %s; it raised %s) left the caller's data changed: %s"
+                               % (cls, "node" if s["op"]["node"] else "edge", refused, s["exc"], what[:6]), dict(replay, step=j), concrete=True)
+                else:
+                    ctx.report("%s changed data it does not own: %s" % (cls, what[:6]), dict(replay, step=j), key=key, concrete=True)
             if not s["getter_ok"]:
                 ctx.report("repeated getter calls of %s returned different results" % cls, dict(replay, step=j), concrete=True)
             # (2) correspondence with the heap of Effects.v
